@@ -2,9 +2,18 @@
    (Step.reset_for_rerun of the registering step; deletion of its detached node), for ALL
    operation sequences. *)
 From Coq Require Import List NArith Bool Lia PeanoNat.
-From SV Require Import lib.Bytes model.Claims model.GlobRows.
+From SV Require Import lib.Bytes gen.GenClaims model.Claims model.GlobRows.
 Import ListNotations.
 Open Scope N_scope.
+
+(* The two facts of the code, translated on every run (gen/GenClaims.v), that the theorems below are
+   about: register_nglob deletes no existing row; Step.reset_for_rerun deletes the rows of the step.
+   If the code changes either, the model follows (model/GlobRows.v) and these two lemmas no longer hold. *)
+Lemma register_deletes_no_row s pat key l : rows_pre_delete register_pre_delete s pat key l = l.
+Proof. reflexivity. Qed.
+
+Lemma reset_deletes_rows_true : reset_deletes_rows = true.
+Proof. reflexivity. Qed.
 
 Definition reg_of (r : row) : N * str * str * subs_t := (r_id r, r_step r, r_pat r, r_subs r).
 
@@ -16,7 +25,7 @@ Lemma apply_op_keeps t o r :
   In r (rows t) -> removes (r_step r) o = false ->
   exists r', In r' (rows (apply_op t o)) /\ reg_of r' = reg_of r.
 Proof.
-  intros Hin Hrm. destruct o; cbn [apply_op rows removes] in *.
+  intros Hin Hrm. destruct o; cbn [apply_op rows removes] in *; rewrite ?register_deletes_no_row, ?reset_deletes_rows_true in *; cbn [rows] in *.
   - exists r. split; [apply in_or_app; now left|reflexivity].
   - exists (if r_id r =? i then mkRow (r_id r) (r_step r) (r_pat r) (r_subs r) ms else r). split.
     + apply in_map_iff. exists r. split; [reflexivity|exact Hin].
@@ -73,6 +82,13 @@ Theorem add_appends t s pat subs ms :
   rows (apply_op t (OAdd s pat subs ms)) = rows t ++ [mkRow (next_id t) s pat subs ms].
 Proof. reflexivity. Qed.
 
+(* the documented removal path does remove: after reset_for_rerun of s no row of s is left *)
+Theorem reset_removes_rows t s r : In r (rows (apply_op t (OReset s))) -> r_step r <> s.
+Proof.
+  cbn [apply_op]. rewrite reset_deletes_rows_true. cbn [rows]. intros H Heq.
+  apply filter_In in H as [_ H]. apply negb_true_iff in H. apply of_step_true in Heq. congruence.
+Qed.
+
 Lemma NoDup_app_one {A} (l : list A) x : NoDup l -> ~ In x l -> NoDup (l ++ [x]).
 Proof.
   induction l as [|y l IH]; cbn; intros H Hn; [constructor; [tauto|constructor]|].
@@ -102,7 +118,7 @@ Qed.
 
 Lemma ids_fresh_step t o : ids_fresh t -> ids_fresh (apply_op t o).
 Proof.
-  unfold ids_fresh. intros H. destruct o; cbn [apply_op rows].
+  unfold ids_fresh. intros H. destruct o; cbn [apply_op rows]; rewrite ?register_deletes_no_row, ?reset_deletes_rows_true; cbn [rows].
   - rewrite map_app. cbn [map r_id]. apply NoDup_app_one; [exact H|].
     intros Hin. apply in_map_iff in Hin as [r [Hid Hin]]. apply le_max_id in Hin.
     unfold next_id in Hid. lia.
@@ -156,9 +172,9 @@ Lemma key_count_step s pat subs t o :
   key_count s pat subs (apply_op t o) =
   (key_count s pat subs t + (if adds_key s pat subs o then 1 else 0))%nat.
 Proof.
-  intros Hrm. unfold key_count. destruct o; cbn [apply_op rows adds_key removes] in *.
+  intros Hrm. unfold key_count. destruct o; cbn [apply_op rows adds_key removes] in *; rewrite ?register_deletes_no_row, ?reset_deletes_rows_true in *; cbn [rows] in *.
   - rewrite filter_app, app_length. cbn [filter].
-    change (same_key s pat subs (mkRow (next_id t) s0 pat0 subs0 ms))
+    change (same_key s pat subs (mkRow (max_id (rows t) + 1) s0 pat0 subs0 ms))
       with (same_key s pat subs (mkRow 0 s0 pat0 subs0 [])).
     destruct (same_key s pat subs (mkRow 0 s0 pat0 subs0 [])); reflexivity.
   - rewrite Nat.add_0_r. induction (rows t) as [|r l IH]; cbn; [reflexivity|].
